@@ -442,10 +442,35 @@ def observe(fn):
 
 def refusals(ctx):
     ar, Vector, CS = impl()
-    systems = []   # (id, type index, object)
-    for ti, ty in enumerate([CS.System.CARTESIAN, CS.System.CYLINDRICAL, CS.System.SPHERICAL]):
-        for _ in range(2):
-            systems.append((len(systems) + 1, ti, CS(ty)))
+    from sympy.vector import CoordSys3D  # pylint: disable=import-outside-toplevel
+    from symplyphysics.core.coordinate_systems.coordinate_systems import (  # pylint: disable=import-outside-toplevel
+        coordinates_transform, coordinates_rotate)
+    types = [CS.System.CARTESIAN, CS.System.CYLINDRICAL, CS.System.SPHERICAL]
+    systems = []   # (id, type index, object, how it was built)
+    for ti, ty in enumerate(types):
+        for k in range(2):
+            systems.append((len(systems) + 1, ti, CS(ty), f"CoordinateSystem({TYPE_NAMES[ti]}) #{k + 1}"))
+    # The library's notion of "same system" is `!=` on CoordinateSystem objects; the class defines no __eq__/__hash__,
+    # so it is object identity.  Distinct wrapper objects are therefore different systems even when they share,
+    # duplicate or derive from one inner sympy CoordSys3D -- the model gives every wrapper object its own id.
+    parent = systems[0]
+    inner = parent[2].coord_system
+    related = []
+    def rel(ti, obj, how):
+        related.append((len(systems) + len(related) + 1, ti, obj, how))
+    for ti, ty in enumerate(types):
+        rel(ti, CS(ty, inner), f"CoordinateSystem({TYPE_NAMES[ti]}, inner=<the CoordSys3D instance of system 1>)")
+    for ti, ty in enumerate(types):
+        twin = CoordSys3D(str(inner), variable_names=CS.system_to_base_scalars(ty))
+        assert twin == inner and twin is not inner
+        rel(ti, CS(ty, twin), f"CoordinateSystem({TYPE_NAMES[ti]}, inner=CoordSys3D(<same name as system 1's>))")
+    for ti, ty in enumerate(types):
+        rel(ti, coordinates_transform(parent[2], ty), f"coordinates_transform(system 1, {TYPE_NAMES[ti]})")
+    rel(0, coordinates_rotate(parent[2], Symbol("phi"), inner.k), "coordinates_rotate(system 1, phi, k)")
+    everything = systems + related
+    family = [parent] + related
+    assert len({id(x[2]) for x in everything}) == len(everything)
+    how = {x[0]: x[3] for x in everything}
     calls = {
         "OpAdd": ar.add_cartesian_vectors, "OpSub": ar.subtract_cartesian_vectors, "OpDot": ar.dot_vectors,
         "OpCross": ar.cross_cartesian_vectors, "OpEqual": ar.equal_vectors, "OpProject": ar.project_vector,
@@ -461,9 +486,16 @@ def refusals(ctx):
     def vec(s, n, tag):
         return Vector([Symbol(f"{tag}{j}") for j in range(n)], s[2])
 
+    if ctx.quick:
+        pairs = list(itertools.product(systems, repeat=2)) + [p for p in itertools.product(family, repeat=2)
+            if not (p[0] is parent and p[1] is parent)]
+    else:
+        pairs = list(itertools.product(everything, repeat=2))
+    lens_family = [(0, 0), (2, 3), (3, 3), (4, 1)]
     for op in BINOPS:
-        for sl, sr in itertools.product(systems, repeat=2):
-            lens = lens_all if (not ctx.quick or op == "OpCross") else lens_quick
+        for sl, sr in pairs:
+            base_pair = sl[0] <= len(systems) and sr[0] <= len(systems)
+            lens = lens_all if (not ctx.quick or (op == "OpCross" and base_pair)) else (lens_quick if base_pair else lens_family)
             for n, m in lens:
                 obs, msg = observe(lambda: calls[op](vec(sl, n, "p"), vec(sr, m, "q")))
                 cases.append({"lit": f"(BinCase {op} {shape_lit(sl, n)} {shape_lit(sr, m)}, {obs})", "op": op, "sl": sl[:2],
@@ -483,8 +515,11 @@ def refusals(ctx):
         cases.append({"lit": f"(NaryCase false [{shape_lit(s, 2)}], {obs})", "op": "sub(v)", "sl": s[:2], "sr": None,
             "lens": (2,), "obs": obs, "msg": msg})
     triples = list(itertools.product(systems, repeat=3))
+    mixed = [t for t in itertools.product(everything, repeat=3) if any(x[0] > len(systems) for x in t)]
     if ctx.quick:
-        triples = ctx.rng.sample(triples, 40)
+        triples = ctx.rng.sample(triples, 40) + ctx.rng.sample(mixed, 40)
+    else:
+        triples = triples + ctx.rng.sample(mixed, 400)
     for tr in triples:
         n3 = (2, 3, 1)
         for is_add, fn in ((True, ar.add_cartesian_vectors), (False, ar.subtract_cartesian_vectors)):
@@ -507,15 +542,23 @@ Definition model_outcome (c : rcase) : outcome :=
   | NaryCase false vs => sub_outcome vs
   end.
 """
+    def describe(sd):
+        if sd is None:
+            return None
+        if isinstance(sd, list):
+            return [describe(x) for x in sd]
+        return f"system {sd[0]} = {how[sd[0]]}"
+
     bad = coqrun.eval_cases(ctx, "refusals", preamble, [c["lit"] for c in cases],
         "fun c : rcase * outcome => outcome_eqb (model_outcome (fst c)) (snd c)", per_file=500)
     for i in bad[:40]:
         c = cases[i]
         verdict = spec_refusal(c)
         ctx.violation(f"C10:refusal:{c['op']}:{c['sl']}:{c['sr']}:{c['lens']}",
-            (f"{c['op']} on systems {c['sl']} / {c['sr']} lengths {c['lens']}: implementation {c['obs']} {c['msg']}"
+            (f"{c['op']} on systems {describe(c['sl'])} / {describe(c['sr'])} lengths {c['lens']}: implementation {c['obs']} {c['msg']}"
              + ("" if verdict is None else f" -- the property requires {verdict}")),
             {"kind": "disagreement", "item": "refusal rule", "input": {"op": c["op"], "left": c["sl"], "right": c["sr"], "lengths": c["lens"]},
+             "systems": {"left": describe(c["sl"]), "right": describe(c["sr"])},
              "observed": {"outcome": c["obs"], "message": c["msg"]}, "expected": verdict or "model outcome (property silent)",
              "gallina": c["lit"], "theorem_or_tie": "correspondence CartVec.binop_outcome ~ arithmetics.py"},
             found_input=verdict is not None)
@@ -523,6 +566,7 @@ Definition model_outcome (c : rcase) : outcome :=
     for c in cases:
         hist[f"{c['op']}:{c['obs']}"] = hist.get(f"{c['op']}:{c['obs']}", 0) + 1
     ctx.coverage["refusal_cases"] = len(cases)
+    ctx.coverage["refusal_systems"] = [f"{x[0]}: {x[3]}" for x in everything]
     ctx.coverage["refusal_histogram"] = hist
     ctx.coverage["refusal_disagreements"] = len(bad)
     ctx.evaluated(len(cases), len({c["lit"] for c in cases if c["obs"] != "Accept" or (c["sl"] and c["sl"][1] != 0)}))
@@ -616,8 +660,9 @@ def run(ctx):
     ctx.coverage["rule"] = ("generic tie: every operation x every length combination 0..3 (thorough: 0..4 where the code allows) "
         "on fresh symbols, one kernel-checked lemma each; concrete instantiations: 5 per shape (all-zero, negatives, 3 seeded from "
         "a pool with zeros/negatives/rationals), distinct = distinct (op, lengths, values), non-trivial = some non-zero component; "
-        "refusals: 7 binary operations x 6x6 coordinate-system objects (2 per type) x lengths 0..4 (quick: all for cross, 8 pairs "
-        "otherwise) + unary + n-ary, non-trivial = refused or non-Cartesian; equal_vectors: seeded rational pairs (padded, trimmed, "
+        "refusals: 7 binary operations x 16x16 coordinate-system objects (2 fresh per type + 10 wrappers that share / duplicate by name / "
+        "derive by coordinates_transform or coordinates_rotate from the CoordSys3D of system 1) x lengths 0..4 (quick: the 6x6 fresh "
+        "pairs with all lengths for cross and 8 otherwise, the 11x11 related family with 4 length pairs) + unary + n-ary, non-trivial = refused or non-Cartesian; equal_vectors: seeded rational pairs (padded, trimmed, "
         "one component changed, extended, random), non-trivial = operands differ as lists")
 
 
